@@ -1,5 +1,6 @@
 (* C18 (interim) — The selected language reaches every lookup and survives the session. *)
-From Vise Require Import Bytes Errors Consts Codec CacheModel StateModel NavModel RenderModel VmModel EngineModel.
+From Coq Require Import String.
+From Vise Require Import Bytes Errors Consts EngConsts Codec CacheModel StateModel NavModel RenderModel VmModel EngineModel.
 Local Open Scope N_scope.
 
 (* an unknown, non-empty code leaves the language unchanged *)
@@ -20,3 +21,21 @@ Proof. reflexivity. Qed.
 Print Assumptions C18_invalid_code_keeps_language.
 Print Assumptions C18_fallback_to_default.
 Print Assumptions C18_language_survives_save.
+
+(* the ISO 639 resolution the model uses is the table generated from the real library on every
+   run; these obligations pin what the table must satisfy whatever the library returns:
+   a resolved code is a three-letter code, and a three-letter ISO 639-3 code resolves to itself *)
+Definition lang_table_wellformed : bool :=
+  forallb (fun p => match snd p with
+                    | Some r => Nat.eqb (String.length r) 3
+                                && (if Nat.eqb (String.length (fst p)) 3 then String.eqb r (fst p) else true)
+                    | None => true
+                    end) lang_table.
+Theorem C18_lang_table_wellformed : lang_table_wellformed = true.
+Proof. vm_compute. reflexivity. Qed.
+Theorem C18_lang_table_anchors :
+  lang_lookup (s2b "no") = Some (s2b "nor") /\ lang_lookup (s2b "swh") = Some (s2b "swh")
+  /\ lang_lookup (s2b "sw") = Some (s2b "swa") /\ lang_lookup (s2b "xx") = None /\ lang_lookup [] = None.
+Proof. vm_compute. repeat split; reflexivity. Qed.
+Print Assumptions C18_lang_table_wellformed.
+Print Assumptions C18_lang_table_anchors.
